@@ -114,7 +114,7 @@ PROPS["C15"] = {
     "groups": [
         {"dir": "consensus",
          "quick": ["VP_C15_Codec_k2", "VP_C15_Codec_k1_flip", "VP_C15_Arbitrary_L0", "VP_C15_Arbitrary_L3", "VP_C15_Arbitrary_L8", "VP_C15_Arbitrary_L10",
-                   "VP_C15_WAL_k3", "VP_C15_WAL_k3_crash1"],
+                   "VP_C15_WAL_k3", "VP_C15_WAL_k3_crash1", "VP_C15_Repair_1", "VP_C15_Repair_2"],
          "thorough": ["VP_C15_Codec_k3", "VP_C15_Codec_k2_flip", "VP_C15_Arbitrary_L12", "VP_C15_WAL_k4", "VP_C15_WAL_k4_crash1"]},
         {"dir": "libs/autofile",
          "quick": ["VP_C15_Limits_k4"],
@@ -122,6 +122,7 @@ PROPS["C15"] = {
     ],
     "bounds": {
         "codec": "k = 2 (thorough 3) messages (EndHeight / timeoutInfo from a fixed alphabet) framed by the real encoder, stream cut at a symbolic byte offset; one symbolic byte overwritten at a symbolic offset (k = 1, thorough 2); arbitrary buffers of L = 0,3,8,10 (thorough 12) fully symbolic bytes with the length field < 16",
+        "repair over lifetimes": "1 and 2 process lifetimes that each append two synced records and die leaving 1, 5 or 9 bytes of a torn record at the end of the WAL; every restart runs the real State.OnStart (catch-up, backup, repairWalFile, reload); afterwards a reader returns every synced record of every lifetime in order",
         "size limits": "real autofile.Group on the modelled file system with head-size limit 200..600 and total-size limit 300..900 bytes; k = 4 (thorough 5) operations from {synced write of a 100/300/700-byte record, checkHeadSizeLimit, checkTotalSizeLimit}; a later reader must get a suffix that starts at a file boundary and contains everything written since the last rotation",
         "wal": "real BaseWAL + autofile.Group on the modelled file system; histories of k = 3 (thorough 4) operations from {Write, WriteSync, end-of-height (synced), RotateFile, Stop+Start, FlushAndSync}; one simulated crash at any file operation (torn write prefixes, surviving prefix of the unsynced tail chosen at reboot), then reopen with the repair sequence of State.OnStart (backup, repairWalFile, reopen); audit with a fresh group reader and SearchForEndHeight for every height",
     },
